@@ -664,6 +664,18 @@ func checkC02(env *engine.Env, ci any) engine.Outcome {
 		data, err := buildYAML(cd.YAML(), f)
 		judge("after-other-package", data, err)
 	}
+	// ONE parsed configuration: every other format is packaged first (each from its own Get), then the judged one
+	if cfg, err := parseYAML(text, nil); err == nil {
+		for _, o := range Formats {
+			if o != f {
+				packageFrom(&cfg, o)
+				out.Transitions++
+			}
+		}
+		data, _, err := packageFrom(&cfg, f)
+		out.Transitions++
+		judge("after-other-formats", data, err)
+	}
 	out.Key = f + ":" + strings.Join(keys, "|")
 	return out
 }
